@@ -38,6 +38,9 @@ def cases(tier, rng):
         for n in LENS_Q + ([128, 255, 256, 1000] if tier == 'thorough' else []):
             for pat in PATTERNS:
                 yield {'k': 'crc32', 'n': n, 'pat': pat}
+        if rep == 0:
+            for n in (4095, 4096, 4099, 65539):          # long inputs
+                yield {'k': 'crc32', 'n': n, 'pat': 'rand'}
         # generic polynomial CRC, all widths 8..64
         for width in range(8, 65):
             for initc in ('zero', 'ones', 'rand'):
@@ -82,7 +85,7 @@ def run(case, ctx, rng):
     k = case['k']
     if k == 'crc32':
         d = pattern(rng, case['n'], case['pat'])
-        ctx.cls(('crc32', min(case['n'], 65), case['pat']))
+        ctx.cls(('crc32', case['n'] if case['n'] <= 65 or case['n'] >= 4000 else 66, case['pat']))
         ctx.eq('crc32==zlib', call(C.crc32, d), zlib.crc32(d), data=d)
     elif k == 'generic':
         w = case['width']
